@@ -56,6 +56,11 @@ TEXT = {
             "prefix-of-each-other and case variants): the reply is BadCluster only, the digest-processing entry points are never reached (marker stubs), membership, member copies and "
             "failure-detector maps are unchanged, the own state changes by one heartbeat tick only; and a BadCluster reply is terminal for the initiator. The multi-node / any-schedule "
             "sentence follows by argument only (a foreign node's state can enter solely through an accepted SYN: SynAck/Ack are only ever sent in answer to one), it is not encoded.", "4"),
+    "C20": ("Decomposed by contract, every piece on the real code: (1) real Chitchat::process_message / process_delta for each message kind with ClusterState::apply_delta replaced by 'returns ANY bool': "
+            "the delta of a SynAck/Ack is applied exactly once, Syn/BadCluster apply nothing, and the callback runs exactly once per message iff the flag was true (two messages in a row included), never without a "
+            "configured callback; (2) real ClusterState::apply_delta over 2-3 sections (known/unknown members) with NodeState::apply_delta replaced by 'returns ANY status': flag = OR over sections; "
+            "(3) real NodeState::apply_delta on every copy shape (empty/just created, keyed, mid-reset) and ANY section: ApplyAfterReset iff the copy is behind an unseen collection and the section restarts "
+            "from 0, and nothing from before the reset survives.", "4"),
     "C14": ("Both coded decisions run from the real code on the same symbolic frontiers: the sender's per-member reset decision / start version (real compute_partial_delta_respecting_mtu) and the "
             "receiver's admission (real check_delta_status/apply_delta) agree for ALL u64 frontiers (key-less) and for 3-key copies with versions 0..7 at every truncation point.", "4"),
 }
